@@ -119,6 +119,12 @@ def result_vec(ck, rule, case, out):
     if not isinstance(v, Vec):
         ck.violate(rule, f'{fn_key(case)}:result-type', f'{case.test} returns {type(v).__name__}, not an array', dict(case=case.label))
         return None
+    start = getattr(out, 'start_serial', None)
+    if start is not None and getattr(v.back, 'serial', start + 1) <= start:
+        # the array handed back existed before the call: it is an input, or state kept between calls (a cache) - the caller editing one result
+        # (or the library reusing it) changes the flags another call reported
+        what = f'the caller-owned input `{v.back.owner}`' if v.back.owner else 'memory kept from an earlier call'
+        ck.violate(rule + '.fresh', f'{fn_key(case)}:result-aliases-earlier-state', f'{case.label}: the returned flag array is {what}, not a new array', dict(case=case.label))
     return v
 
 
@@ -131,6 +137,12 @@ def compare_flags(ck, rule, case, vec, spec_pos, extra=None):
         if sp is None:
             continue
         qs, allowed = sp
+        if e.m is not False:
+            # a flag behind a mask is not a flag: consumers (aggregate, stores) read the position as not evaluated
+            ck.violate(rule + '.table', f'{fn_key(case)}:{case.meta.get("class", "")}:flag-masked',
+                       f'{case.label}: the flag at position {p} is returned masked' + ('' if e.m is True else f' when {X.show(e.m)[:160]}') +
+                       ': the property gives that position a flag', dict(case=case.label, position=p))
+            continue
         compare_position(e.d, qs, allowed, ck.rng, res, f'{case.label} @ {p}')
     ck.evaluations += res.cells
     for d in res.distinct:
